@@ -1,10 +1,16 @@
 import JadeModel.Proofs.SystemNode
 import JadeModel.Proofs.SystemRowsDefs
-import JadeModel.Proofs.SystemRowsBlockStep
+import JadeModel.Proofs.SystemRowsBlockStepA
+import JadeModel.Proofs.SystemRowsBlockStepB
 
 set_option linter.unusedSimpArgs false
 
 namespace Jade.Sys
+
+theorem blockInv_step {s s' : Sys} {op : Op} (hi : BlockInv s) (h : step s op = some s') : BlockInv s' := by
+  obtain ⟨c_disk, c_loc, c_seen⟩ := blockInv_step_a hi h
+  obtain ⟨c_batches, c_node⟩ := blockInv_step_b hi h
+  exact ⟨c_disk, c_loc, c_seen, c_batches, c_node, rfl⟩
 
 theorem blockInv_run {s s' : Sys} (ops : List Op) (hi : BlockInv s) (h : run s ops = some s') : BlockInv s' := by
   induction ops generalizing s with
